@@ -153,6 +153,7 @@ Edit(d, t) ==
     [] t.kind = "key"                 -> [d EXCEPT !.key = "keyX"]
     [] t.kind = "suggested_file_name" -> [d EXCEPT !.suggested_file_name = "sfnX"]
     [] t.kind = "stream_hash"         -> [d EXCEPT !.stream_hash = ShaHex(<<Hex("bogus"), "bogus", Hex("bogus"), ShaRaw(<<>>)>>)]
+    [] t.kind = "stream_hash_falsy"   -> [d EXCEPT !.stream_hash = <<"falsy", <<>>>>]       \* "", null, 0, false (i selects): present but falsy
     [] t.kind = "blob_hash"           -> [d EXCEPT !.blobs[i].hash = "hX"]
     [] t.kind = "blob_num"            -> [d EXCEPT !.blobs[i].num = @ + 7]
     [] t.kind = "iv"                  -> [d EXCEPT !.blobs[i].iv = "ivX"]
@@ -184,11 +185,12 @@ Tampers(d) ==
   \cup {T("missing_key", 0, k) : k \in TopKeys}
   \cup {T("blob_missing_key", i, k) : i \in 1..n, k \in {"blob_num", "iv", "length"}}
   \cup {T("bad_json", i, "") : i \in 1..4}
+  \cup {T("stream_hash_falsy", i, "") : i \in 1..4}
 Recommit(e) == [e EXCEPT !.stream_hash = StreamHash(e)]
 Tamper == /\ phase = "sd"
           /\ \E t \in Tampers(sd), rc \in BOOLEAN :
                LET e == Edit(sd, t) IN
-               /\ rc => (t.kind # "stream_hash" /\ Computable(e) /\ StreamHash(e) # e.stream_hash)
+               /\ rc => (t.kind \notin {"stream_hash", "stream_hash_falsy"} /\ Computable(e) /\ StreamHash(e) # e.stream_hash)
                /\ tam' = [t EXCEPT !.recommit = rc]
                /\ td' = IF rc THEN Recommit(e) ELSE e
           /\ phase' = "tampered"
